@@ -126,3 +126,20 @@ try:
                      note='tokens tile the text; the position strictly increases (termination); only ParseException escapes')
 except ImportError:      # pragma: no cover
     pass
+
+# ---- escape decoding of '...' literals: nothing but UnicodeDecodeError may come out of the decoder (StringNode.__init__ turns
+# exactly that into a located ParseException); the escape text is first encoded with an encoding that can encode EVERY text
+from pyvc.api import MatchS
+REG.contract('C02', P, 'decode_match', params={'match': MatchS('ESCAPE_SEQUENCE_SINGLE_RE', 'search')},
+             raises={'UnicodeDecodeError': 'True'}, exact_raises=False, ensures=['True'], result=Str, floor=2,
+             note='callback of the single re.sub pass over a string literal: may fail with UnicodeDecodeError (unknown character name, code point out of range) and with nothing else, whatever characters the escape contains (\\N{...} admits any)')
+StrNS = Struct('StringNode', 'mesonbuild.mparser:StringNode', raw_value=Str, is_multiline=Bool, value=Str)
+REG.contract('C02', P, 'StringNode.escape', params={'self': StrNS}, raises={'UnicodeDecodeError': 'True'}, exact_raises=False, ensures=['True'], result=Str, floor=1,
+             note='one re.sub pass with decode_match as the callback: whatever the callback may raise, and nothing else')
+TokS = Struct('Token', 'mesonbuild.mparser:Token', lineno=Int, colno=Int)
+REG.contract('C02', P, 'StringNode.__init__', variant='escape-step', region=('If', 'self.value = self.escape()'),
+             params={'self': StrNS, 'token': TokS, 'escape': Bool},
+             raises={'ParseException': 'True'}, exact_raises=False,
+             ensures=["(len([e for e in __trace__ if e[0] == 'escape']) == 1) == (escape and not self.is_multiline)"],
+             method_effects={'escape': {'returns': Str, 'raises': ['UnicodeDecodeError']}}, modifies=['self.value'], floor=3,
+             note='escape decoding happens for single-line literals only, once; a failing escape (UnicodeDecodeError — the only exception StringNode.escape lets out, see its contract) becomes a located ParseException: no internal Python error escapes')
